@@ -380,7 +380,10 @@ where
                     let os_ipc_shared_memory_regions;
                     let os_ipc_channels;
                     {
-                        bincode::serialize_into(&mut bytes, &data)?;
+                        // Put the tables back before looking at the result, so that a failed
+                        // serialization does not leave its attachments (or lose the enclosing
+                        // send's) in the thread-local tables.
+                        let result = bincode::serialize_into(&mut bytes, &data);
                         os_ipc_channels = mem::replace(
                             &mut *os_ipc_channels_for_serialization.borrow_mut(),
                             old_os_ipc_channels,
@@ -389,6 +392,7 @@ where
                             &mut *os_ipc_shared_memory_regions_for_serialization.borrow_mut(),
                             old_os_ipc_shared_memory_regions,
                         );
+                        result?;
                     };
                     Ok(self.os_sender.send(
                         &bytes[..],
